@@ -418,7 +418,7 @@ SPECS['C14'] = dict(
         '[]/front/back/iterators, destruction; element types int, double, unsigned char, lifetime-tracked class, std::string (no resize: not bitwise relocatable). '
         'After every operation size, every determinate element, iteration, storage independence and the lifetime registry are reconciled. '
         'non-trivial = class-type pointer+length construction, a copy of a non-empty array or a size-changing resize; distinct = distinct histories',
-        samples, observed=pick(agg, 'histories', 'ops', 'nontrivialCases', 'stateComparisons', 'zeroLength', 'arraysOver2G', 'hugeSkipped', 'trackedCtors', 'trackedDtors', 'trackedMoves'),
+        samples, observed=pick(agg, 'histories', 'ops', 'nontrivialCases', 'stateComparisons', 'zeroLength', 'nestedElementRuns', 'arraysOver2G', 'hugeSkipped', 'trackedCtors', 'trackedDtors', 'trackedMoves'),
         operations=agg.get('opCount', {}), construction_lengths=agg.get('lengths', {})),
     assumptions=['elements of arithmetic type added by Array(n)/resize(n) are indeterminate by design and are not read',
                  'a moved-from Array is only destroyed or assigned to',
